@@ -214,7 +214,7 @@ BadSkip(req) == \E i \in 1..Len(req.hdrs) : req.hdrs[i].skip /\ LowerSeq(req.hdr
 (*   FALSE        | none          | streamed    | any           || chunked           | TE: chunked       *)
 
 SizedKinds == {"bytes", "str", "buffer"}
-TextKinds == {"str", "textfile", "strlist"}
+TextKinds == {"str", "textfile", "strlist", "shorttextfile", "shorttextpipe"}
 EncChunk(req, c) == IF req.body.kind \in TextKinds THEN Utf8(c) ELSE c
 Payload(req) == Flatten([i \in 1..Len(req.body.chunks) |-> EncChunk(req, req.body.chunks[i])])
 MethodExpectsBody(m) == UpperSeq(m) \notin NoBodyMethods
